@@ -45,6 +45,10 @@ pub fn check(t: &Trace<'_>, out: &mut CaseOut) -> bool {
             // not a violation by itself (compaction is lazy) but worth counting
             out.count("probes_empty_but_used_nonzero", 1);
         }
+        if let Some(d) = twice(&s.tx) {
+            out.violations.push(viol("C17", "C17/slots/one-exchange-occupies-two-slots", format!("probe at event {}: {}", ev, d)));
+        }
+        out.count("slot_tables_inspected", 1);
         let ids: Vec<u16> = s.tx.retained.iter().map(|e| e.packet_id).collect();
         // an acknowledgement removed a non-last entry: the entries behind it were moved
         if prev_ids.len() > ids.len() && !ids.is_empty() {
@@ -157,4 +161,17 @@ pub fn check(t: &Trace<'_>, out: &mut CaseOut) -> bool {
     }
     out.key(format!("arena/{}", bucket_len(t.log.cfg.tx)));
     nontrivial
+}
+
+/// One exchange is one in-flight slot: an identifier appears at most once in the table of
+/// retained packets and at most once in the table of releases awaiting PUBCOMP.
+pub fn twice(tx: &minimq::verif::VerifTx) -> Option<String> {
+    for (name, tab) in [("retained", &tx.retained), ("release", &tx.release)] {
+        for (i, e) in tab.iter().enumerate() {
+            if tab.iter().skip(i + 1).any(|f| f.packet_id == e.packet_id) {
+                return Some(format!("identifier {} appears twice in the {} table {:?}", e.packet_id, name, tab.iter().map(|e| e.packet_id).collect::<Vec<_>>()));
+            }
+        }
+    }
+    None
 }
